@@ -143,6 +143,21 @@ CHECKS["C18"] = dict(
    note=TB + "Allocations inside zlib/zstd/snappy and mmap are not failed; single-threaded; LKCD/SADUMP open findings are recorded in KNOWN_FINDINGS "
         "(they need the repository's own tests/out dumps to show up).",
    technique="Lean 4 proof (ledger model, all fault points) + systematic n-th-allocation fault enumeration", design="§6 C18")
+CHECKS["C03"] = dict(
+   text="PARTIAL by nature: a Lean theorem cannot establish memory safety of 12 000 lines of C. Proved (16 theorems, all inputs, no size bound): bounds, "
+        "termination and no-zero-divisor theorems about executable models of the parsing steps whose indices and counts come from the file -- uncompress_rle, "
+        "do_notes, diskdump try_header/read_bitmap, the flattened record scan and chunk index, the SADUMP cpu-state division, page_size_pre_hook -- each "
+        "access checked against the actual buffer length in the model (oob is a distinguished result proved unreachable). Tie: stream `bounds` runs the real "
+        "functions (sources #included, chunk requests / bit ranges / map insertions intercepted with -Wl,--wrap) and the compiled model on the same generated "
+        "lines, and an independent Python reading of each input judges both. Everything outside those models (ELF/LKCD/SADUMP header parsing, attributes, caches, "
+        "decompressors) is covered by the `hostile` stream only: 38 generated bases of every format x 1054-field tables x {0,1,max,sign boundaries,+-1,*2}, "
+        "truncations at every structure boundary, sampled double corruptions, mismatched file sets and a coverage-guided mutation loop, every input in a forked "
+        "child under ASan+UBSan with a wall-clock bound, script = open, attribute enumeration, page maps, 40 reads, strings; each status must be documented.",
+   note=TB + "Hostile-input survival is evidence, not proof; time bound is a 4 s wall clock per input under sanitizers, not a complexity proof. Findings "
+        "misaligned-load-of-file-data and elf-vmci-deepkey:timeout are recorded in KNOWN_FINDINGS. Behaviour behind EOF is a model parameter (both zero-fill "
+        "and failure are covered by the flat-scan theorems).",
+   technique="Lean 4 proof (bounds/termination of the file-indexed parsing steps) + differential model/implementation stream + sanitizer-guarded field-corruption enumeration and coverage-guided mutation",
+   design="§6 C03")
 CHECKS["C04"] = dict(
    text="Lean proofs on top of the proved C06 cache model: cache_transparent / history_irrelevant (for the composition of the cache with any deterministic "
         "fill function, after ANY history a get/fill/insert for key k yields f k, or busy exactly when the C06 busy rule says so), reads_only_transparent, "
